@@ -513,40 +513,11 @@ impl StorageEngine {
             return Err(StorageError::KnowledgeGraphNotFound(kg.to_string()));
         }
 
-        // Generate shard name and logical time
-        let shard = format!("{kg}:{relation}");
-        let time = self.logical_time.fetch_add(1, Ordering::SeqCst);
-        #[cfg(feature = "verif-hooks")]
-        vh::yield_point("se.insert.time_assigned");
-
-        // Create DD-style updates (+1 diff for insert)
-        let updates: Vec<Update> = tuples
-            .iter()
-            .map(|data| Update::insert(data.clone(), time))
-            .collect();
-
-        // Persist first (durability guarantee via WAL + batches)
-        let persist_start = Instant::now();
-        self.persist.ensure_shard(&shard)?;
-        self.persist.append(&shard, &updates)?;
-        let persist_ms = persist_start.elapsed().as_millis() as u64;
-        info!(
-            kg = %kg,
-            relation = %relation,
-            tuples = updates.len(),
-            persist_ms,
-            "persist_append_complete"
-        );
-
-        // The dropping_kgs guard stays held until the in-memory state is updated as well:
-        // released here, a drop (and re-create) of the graph could run between the persist
-        // call and the in-memory update - the tuples would then be applied to another
-        // incarnation of the graph than the one whose shard they were written to (and
-        // deleted with), or be refused although they are already on disk.
-
-        #[cfg(feature = "verif-hooks")]
-        vh::yield_point("se.insert.persisted");
-        // Update in-memory state
+        // The write is decided, logged and applied under the graph's write lock. Only the
+        // tuples that actually change the relation are logged: the relation is a set, and
+        // recovery sums the logged diffs - a duplicate insert logged as a second +1 would
+        // survive a later delete after a restart. Taking the lock first also makes the
+        // logical times of a graph's writes follow the order in which they are applied.
         let db = self
             .knowledge_graphs
             .get(kg)
@@ -555,6 +526,45 @@ impl StorageEngine {
         #[cfg(feature = "verif-hooks")]
         vh::before_lock("se.insert.kg_write", &|| db.is_locked());
         let mut db = db.write();
+        let effective = db.tuples_absent_from(relation, &tuples);
+
+        // Generate shard name and logical time
+        let shard = format!("{kg}:{relation}");
+        let time = if effective.is_empty() {
+            self.logical_time.load(Ordering::SeqCst)
+        } else {
+            self.logical_time.fetch_add(1, Ordering::SeqCst)
+        };
+        #[cfg(feature = "verif-hooks")]
+        vh::yield_point("se.insert.time_assigned");
+
+        if !effective.is_empty() {
+            // Create DD-style updates (+1 diff for insert)
+            let updates: Vec<Update> = effective
+                .iter()
+                .map(|data| Update::insert(data.clone(), time))
+                .collect();
+
+            // Persist first (durability guarantee via WAL + batches)
+            let persist_start = Instant::now();
+            self.persist.ensure_shard(&shard)?;
+            self.persist.append(&shard, &updates)?;
+            let persist_ms = persist_start.elapsed().as_millis() as u64;
+            info!(
+                kg = %kg,
+                relation = %relation,
+                tuples = updates.len(),
+                persist_ms,
+                "persist_append_complete"
+            );
+        }
+
+        // The dropping_kgs guard stays held until the in-memory state is updated as well:
+        // released earlier, a drop (and re-create) of the graph could run between the persist
+        // call and the in-memory update.
+        #[cfg(feature = "verif-hooks")]
+        vh::yield_point("se.insert.persisted");
+        // Update in-memory state
         db.insert_in_memory(relation, tuples, time)
     }
 
@@ -637,27 +647,9 @@ impl StorageEngine {
             return Err(StorageError::KnowledgeGraphNotFound(kg.to_string()));
         }
 
-        // Generate shard name and logical time
-        let shard = format!("{kg}:{relation}");
-        let time = self.logical_time.fetch_add(1, Ordering::SeqCst);
-        #[cfg(feature = "verif-hooks")]
-        vh::yield_point("se.delete.time_assigned");
-
-        // Create DD-style updates (-1 diff for delete)
-        let updates: Vec<Update> = tuples
-            .iter()
-            .map(|data| Update::delete(data.clone(), time))
-            .collect();
-
-        // Persist first (durability guarantee via WAL + batches)
-        self.persist.ensure_shard(&shard)?;
-        self.persist.append(&shard, &updates)?;
-
-        // The dropping_kgs guard stays held until the in-memory state is updated (see insert)
-
-        #[cfg(feature = "verif-hooks")]
-        vh::yield_point("se.delete.persisted");
-        // Update in-memory state
+        // As for inserts: decide, log and apply under the graph's write lock, and log only
+        // the tuples that are actually removed (a delete of an absent tuple logged as -1
+        // would cancel a later insert of that tuple after a restart).
         let db = self
             .knowledge_graphs
             .get(kg)
@@ -666,6 +658,35 @@ impl StorageEngine {
         #[cfg(feature = "verif-hooks")]
         vh::before_lock("se.delete.kg_write", &|| db.is_locked());
         let mut db = db.write();
+        let effective = db.tuples_present_in(relation, &tuples);
+
+        // Generate shard name and logical time
+        let shard = format!("{kg}:{relation}");
+        let time = if effective.is_empty() {
+            self.logical_time.load(Ordering::SeqCst)
+        } else {
+            self.logical_time.fetch_add(1, Ordering::SeqCst)
+        };
+        #[cfg(feature = "verif-hooks")]
+        vh::yield_point("se.delete.time_assigned");
+
+        if !effective.is_empty() {
+            // Create DD-style updates (-1 diff for delete)
+            let updates: Vec<Update> = effective
+                .iter()
+                .map(|data| Update::delete(data.clone(), time))
+                .collect();
+
+            // Persist first (durability guarantee via WAL + batches)
+            self.persist.ensure_shard(&shard)?;
+            self.persist.append(&shard, &updates)?;
+        }
+
+        // The dropping_kgs guard stays held until the in-memory state is updated (see insert)
+
+        #[cfg(feature = "verif-hooks")]
+        vh::yield_point("se.delete.persisted");
+        // Update in-memory state
         db.delete_in_memory(relation, &tuples, time)
     }
 
@@ -2344,6 +2365,34 @@ impl KnowledgeGraph {
     ///
     /// # Errors
     /// Returns error if DD shadow write fails.
+    /// The tuples of `tuples` (each once) that the relation does not hold yet: what an insert
+    /// of `tuples` actually adds.
+    fn tuples_absent_from(&self, relation: &str, tuples: &[Tuple]) -> Vec<Tuple> {
+        let existing = self.engine.input_tuples.get(relation);
+        let mut out: Vec<Tuple> = Vec::new();
+        for t in tuples {
+            if !existing.is_some_and(|e| e.contains(t)) && !out.contains(t) {
+                out.push(t.clone());
+            }
+        }
+        out
+    }
+
+    /// The tuples of `tuples` (each once) that the relation holds: what a delete of `tuples`
+    /// actually removes.
+    fn tuples_present_in(&self, relation: &str, tuples: &[Tuple]) -> Vec<Tuple> {
+        let Some(existing) = self.engine.input_tuples.get(relation) else {
+            return Vec::new();
+        };
+        let mut out: Vec<Tuple> = Vec::new();
+        for t in tuples {
+            if existing.contains(t) && !out.contains(t) {
+                out.push(t.clone());
+            }
+        }
+        out
+    }
+
     fn insert_in_memory(
         &mut self,
         relation: &str,
